@@ -332,3 +332,66 @@ pub fn polyline_points(d: &mut Dec, maxn: u32, r: i32) -> Vec<Point> {
     }
     v
 }
+
+
+/// Size in `lo..=hi`, with the power-of-two neighbourhoods in between favoured.
+pub fn large_size(d: &mut Dec, lo: u32, hi: u32) -> u32 {
+    match d.u(0, 3) {
+        0 => {
+            let b = d.pick(&[127u32, 128, 129, 255, 256, 257, 320, 240, 480, 511, 512, 513]);
+            b.clamp(lo, hi)
+        }
+        _ => d.u(lo, hi),
+    }
+}
+
+/// A large shape of the given kind: sizes / diameters / vertex spans in `lo..=hi`, positioned so
+/// that it straddles the origin or lies up to `hi` away from it.
+pub fn large_shape(d: &mut Dec, kind: u32, lo: u32, hi: u32) -> Shape {
+    let r = hi as i32;
+    let pos = |d: &mut Dec, w: u32, h: u32| match d.u(0, 2) {
+        0 => Point::new(-(w as i32) / 2 + d.i(-3, 3), -(h as i32) / 2 + d.i(-3, 3)),
+        _ => Point::new(d.i(-r, r), d.i(-r, r)),
+    };
+    match kind {
+        0 => {
+            let (w, h) = (large_size(d, lo, hi), large_size(d, lo, hi));
+            Shape::Rect(Rectangle::new(pos(d, w, h), Size::new(w, h)))
+        }
+        1 => {
+            let w = large_size(d, lo, hi);
+            Shape::Circle(Circle::new(pos(d, w, w), w))
+        }
+        2 => {
+            let (w, h) = (large_size(d, lo, hi), if d.ratio(1, 4) { d.u(1, 20) } else { large_size(d, lo, hi) });
+            let (w, h) = if d.bool() { (w, h) } else { (h, w) };
+            Shape::Ellipse(Ellipse::new(pos(d, w, h), Size::new(w, h)))
+        }
+        3 => {
+            let (w, h) = (large_size(d, lo, hi), large_size(d, lo, hi));
+            let rad = |d: &mut Dec| Size::new(d.u(0, hi), d.u(0, hi));
+            let radii = if d.bool() { CornerRadii::new(rad(d)) } else { CornerRadii { top_left: rad(d), top_right: rad(d), bottom_right: rad(d), bottom_left: rad(d) } };
+            Shape::RRect(RoundedRectangle::new(Rectangle::new(pos(d, w, h), Size::new(w, h)), radii))
+        }
+        4 => {
+            let span = large_size(d, lo, hi) as i32;
+            let a = Point::new(d.i(-span / 2, span / 2), d.i(-span / 2, span / 2));
+            let b = a + Point::new(d.i(-span, span), d.i(-span, span));
+            let c = a + Point::new(d.i(-span, span), d.i(-span, span));
+            Shape::Triangle(Triangle::new(a, b, c))
+        }
+        5 => {
+            let span = large_size(d, lo, hi) as i32;
+            let a = Point::new(d.i(-span / 2, span / 2), d.i(-span / 2, span / 2));
+            Shape::Line(Line::new(a, a + Point::new(d.i(-span, span), d.i(-span, span))))
+        }
+        6 => {
+            let w = large_size(d, lo, hi);
+            Shape::Arc(Arc::new(pos(d, w, w), w, angle_deg(d).deg(), angle_deg(d).deg()))
+        }
+        _ => {
+            let w = large_size(d, lo, hi);
+            Shape::Sector(Sector::new(pos(d, w, w), w, angle_deg(d).deg(), angle_deg(d).deg()))
+        }
+    }
+}
